@@ -606,7 +606,7 @@ def capture_strategy():
 
 
 FACETS = [
-    Facet("conforming", conforming_strategy, check_conforming, classify_conforming, quick=700, thorough=20000),
-    Facet("deviation", deviation_strategy, check_deviation, classify_deviation, quick=1200, thorough=40000),
-    Facet("capture", capture_strategy, check_capture, classify_capture, quick=300, thorough=3000),
+    Facet("conforming", conforming_strategy, check_conforming, classify_conforming, quick=700, thorough=80000),
+    Facet("deviation", deviation_strategy, check_deviation, classify_deviation, quick=1200, thorough=160000),
+    Facet("capture", capture_strategy, check_capture, classify_capture, quick=300, thorough=20000),
 ]
